@@ -32,7 +32,9 @@ def run(ctx):
     RW.text_is_empty_words(ctx, "R12.i")
     from . import C20 as _RC20
     _RC20.api_effects(ctx, "R12.j", which=("add",))
-    return info("R12.j: add_record really adds the record to the addressed store on every call (the registry API is not exercised by the repository's tests). R12.i: Text::is_empty tests the words (a query of separators only is the empty query). "
+    from . import r_rank as _RR3
+    _RR3.hit_from_record(ctx, "R12.k")
+    return info("R12.k: a hit copies id, title and rating of its record unchanged (no narrowing of the rating on the way). R12.j: add_record really adds the record to the addressed store on every call (the registry API is not exercised by the repository's tests). R12.i: Text::is_empty tests the words (a query of separators only is the empty query). "
                 "R12.a: the empty-query selection orders by exactly (rating desc, normalised title asc); R12.b: bounded by "
                 "self.limit with the R06.a selection rules; R12.c: the non-index branch is taken iff the query has no word, an "
                 "empty query passes the filter first, positions map to records; R12.d: the memoised ranking is coherent (R10.a/b); "
